@@ -9,6 +9,9 @@ from harness import kit, ser
 _BIN = {"+": op.add, "-": op.sub, "*": op.mul, "/": op.truediv, "//": op.floordiv,
         "%": op.mod, "**": op.pow, "<<": op.lshift, ">>": op.rshift, "&": op.and_,
         "|": op.or_, "^": op.xor}
+_IBIN = {"+": op.iadd, "-": op.isub, "*": op.imul, "/": op.itruediv, "//": op.ifloordiv,
+         "%": op.imod, "**": op.ipow, "<<": op.ilshift, ">>": op.irshift, "&": op.iand,
+         "|": op.ior, "^": op.ixor}
 _ORD = {"<": op.lt, "<=": op.le, ">": op.gt, ">=": op.ge}
 _CMPM = {"==": "eq", "!=": "ne", "<": "lt", "<=": "le", ">": "gt", ">=": "ge"}
 
@@ -20,6 +23,11 @@ def execute(p):
         return ser.from_json(p["e"])
     if t == "bin":
         return _BIN[p["op"]](execute(p["l"]), execute(p["r"]))
+    if t == "aug":      # a = l; b = a; a op= r; result a ("target") or b ("alias")
+        a = execute(p["l"])
+        b = a
+        a = _IBIN[p["op"]](a, execute(p["r"]))
+        return a if p["obs"] == "target" else b
     if t == "un":
         a = execute(p["a"])
         return {"-": op.neg, "+": op.pos, "~": op.invert,
